@@ -929,3 +929,136 @@ def run_operator(sc: dict, wall_limit: float = 60.0) -> dict:
         return simloop.run_sim(main, wall_limit=wall_limit)
     except (simloop.SimDeadlock, simloop.SimStall) as e:
         return {"sim_error": f"{type(e).__name__}: {e}"}
+
+
+# =============================================================================================
+# Pure runs: the two synchronous functions that decide WHAT is served, called directly
+# =============================================================================================
+def ns_body(name: str, shape: str) -> dict:
+    """A namespace body as the API server sends it. Shapes: live | marked (deletionTimestamp, the namespace controller
+    has not written its conditions yet) | blocked (Terminating, content / finalizers remaining: mixed conditions) |
+    finishing (Terminating, every condition False) | odd (conditions without a deletion mark)."""
+    body: dict = {"apiVersion": "v1", "kind": "Namespace", "metadata": {"name": name, "uid": f"uid-{name}", "resourceVersion": "1"},
+                  "spec": {"finalizers": ["kubernetes"]}, "status": {"phase": "Active"}}
+    if shape in ("marked", "blocked", "finishing"):
+        body["metadata"]["deletionTimestamp"] = "2020-01-01T00:00:00Z"
+        body["status"]["phase"] = "Terminating"
+    if shape in ("blocked", "finishing", "odd"):
+        rem = "True" if shape in ("blocked", "odd") else "False"
+        body["status"]["conditions"] = [
+            {"type": "NamespaceDeletionDiscoveryFailure", "status": "False", "reason": "ResourcesDiscovered", "message": "ok"},
+            {"type": "NamespaceDeletionContentFailure", "status": "False", "reason": "ContentDeleted", "message": "ok"},
+            {"type": "NamespaceContentRemaining", "status": rem, "reason": "SomeResourcesRemain", "message": "kopfexamples.kopf.dev has 1 resource instances"},
+            {"type": "NamespaceFinalizersRemaining", "status": rem, "reason": "SomeFinalizersRemain", "message": "x in 1 resource instances"}]
+    return body
+
+
+def run_pure_ns(case: dict) -> dict:
+    """The real `observation.revise_namespaces`: the observer's own listing (`raw_bodies`), then one raw event at a time
+    (as `process_discovered_namespace_event` calls it). Returns `insights.namespaces` after the listing and after every event."""
+    from kopf._cogs.structs import references
+    from kopf._core.reactor import observation
+    ins = references.Insights()
+    ins.namespaces.update(case.get("served0", []))
+    pats = list(case["patterns"])
+    observation.revise_namespaces(insights=ins, namespaces=pats, raw_bodies=[ns_body(n, s) for n, s in case["listing"]])
+    after0 = sorted(str(n) for n in ins.namespaces)
+    after = []
+    for typ, name, shape in case["events"]:
+        observation.revise_namespaces(insights=ins, namespaces=pats, raw_events=[{"type": typ, "object": ns_body(name, shape)}])
+        after.append(sorted(str(n) for n in ins.namespaces))
+    return {"after0": after0, "after": after}
+
+
+def _selector_of(spec: dict) -> Any:
+    import kopf
+    from kopf._cogs.structs import references
+    by = spec["by"]
+    if by == "full":
+        return references.Selector(spec["group"], spec["version"], spec["plural"])
+    if by == "groupname":
+        return references.Selector(spec["group"], spec["plural"])
+    if by == "name":
+        return references.Selector(spec["value"])
+    if by == "category":
+        return references.Selector(category=spec["value"])
+    if by == "everything":
+        return references.Selector(kopf.EVERYTHING)
+    raise ValueError(f"unknown selector {spec!r}")
+
+
+def _decorate(reg: Any, kind: str, spec: dict, hid: str) -> None:
+    import kopf
+    by = spec["by"]
+    args: tuple = ()
+    kw: dict = {}
+    if by == "full":
+        args = (spec["group"], spec["version"], spec["plural"])
+    elif by == "groupname":
+        args = (spec["group"], spec["plural"])
+    elif by == "name":
+        args = (spec["value"],)
+    elif by == "category":
+        kw = {"category": spec["value"]}
+    elif by == "everything":
+        args = (kopf.EVERYTHING,)
+
+    async def fn(**_: Any) -> None:
+        return None
+    if kind == "event":
+        kopf.on.event(*args, id=hid, registry=reg, **kw)(fn)
+    elif kind == "index":
+        kopf.index(*args, id=hid, registry=reg, **kw)(fn)
+    elif kind == "daemon":
+        kopf.daemon(*args, id=hid, registry=reg, **kw)(fn)
+    elif kind == "timer":
+        kopf.timer(*args, id=hid, registry=reg, interval=512.0, **kw)(fn)
+    elif kind in ("create", "update", "delete", "resume"):
+        getattr(kopf.on, kind)(*args, id=hid, registry=reg, **kw)(fn)
+    else:
+        raise ValueError(f"unknown handler kind {kind!r}")
+
+
+def run_pure_res(case: dict) -> dict:
+    """The real `observation.revise_resources` over a real registry (handlers of every kind, registered through kopf's own
+    decorators) and a discovered set of resources. `_disable_unsuitable_resources` is wrapped: what it was handed (the
+    watched resources so far, the selectors) and what it left. Also the verdicts of the real `Selector.check` /
+    `is_specific` per handler: the model does not model `check`."""
+    import kopf
+    from kopf._cogs.structs import references
+    from kopf._core.reactor import observation
+    resources = [references.Resource(group=r["group"], version=r["version"], plural=r["plural"], kind=r["kind"], singular=r["kind"].lower(),
+                                     shortcuts=frozenset(r.get("shortcuts", [])), categories=frozenset(r.get("categories", [])),
+                                     subresources=frozenset(), namespaced=True, preferred=bool(r.get("preferred", True)),
+                                     verbs=frozenset(r["verbs"])) for r in case["resources"]]
+    ident = lambda r: [r.group, r.version, r.plural]  # noqa: E731
+    reg = kopf.OperatorRegistry()
+    for i, h in enumerate(case["handlers"]):
+        _decorate(reg, h["kind"], h["sel"], f"h{i}")
+    sels = [_selector_of(h["sel"]) for h in case["handlers"]]
+    known = (reg._indexing.get_all_selectors() | reg._watching.get_all_selectors() | reg._spawning.get_all_selectors() |
+             reg._changing.get_all_selectors())
+    if not all(s in known for s in sels):
+        raise RuntimeError("a selector built here is not the one the decorator registered")
+    seen: dict = {}
+    orig = observation._disable_unsuitable_resources
+
+    def wrapped(*, resources: Any, selectors: Any) -> None:
+        seen["before"] = sorted(ident(r) for r in resources)
+        seen["selectors"] = len(selectors)
+        seen["passed"] = [s in selectors for s in sels]
+        orig(resources=resources, selectors=selectors)
+        seen["after"] = sorted(ident(r) for r in resources)
+    import logging
+    observation._disable_unsuitable_resources = wrapped  # type: ignore[assignment]
+    logging.disable(logging.CRITICAL)       # "… will not be served" warnings: thousands of them, not observations
+    try:
+        ins = references.Insights()
+        observation.revise_resources(group=None, insights=ins, registry=reg, resources=resources)
+    finally:
+        logging.disable(logging.NOTSET)
+        observation._disable_unsuitable_resources = orig  # type: ignore[assignment]
+    return {"before": seen.get("before"), "after": seen.get("after"), "passed": seen.get("passed"),
+            "watched": sorted(ident(r) for r in ins.watched_resources),
+            "checks": [[ident(r) for r in resources if s.check(r)] for s in sels],
+            "specific": [bool(s.is_specific) for s in sels]}
